@@ -16,10 +16,11 @@
      mesonbuild/mintro.py                intro files: tmp_dump.json then os.replace
      mesonbuild/utils/universal.py:2651-2676     pickle_load error mapping
 
-   The two boolean switches of [env] select the behaviour of the tree BEFORE the pending
-   fixes (cmd_line.txt written in place; --wipe keeping cmd_line.txt only in a temporary
-   directory); the property theorems are about the fixed behaviour, the historical one
-   is kept for the `_refuted` witnesses.  No proofs in this file. *)
+   The boolean switches of [env] select historical / hypothetical behaviour (cmd_line.txt written in
+   place; --wipe keeping cmd_line.txt only in a temporary directory; configure writing coredata.dat
+   first); the property theorems are about the tree as it is, the other settings are kept for the
+   `_refuted` witnesses.  What lies outside the build directory (declared defaults, machine-file
+   contents) is a [world] that every command / event carries.  No proofs in this file. *)
 From MV Require Import Base.Strs.
 Open Scope N_scope.
 
@@ -38,9 +39,29 @@ Fixpoint alookup (k : key) (l : alist) : option val :=
       | None => if k =? k' then Some v else None
       end
   end.
-Definition dflt (k : key) : val := 0.          (* every option's default is value 0 *)
+Definition dflt (k : key) : val := 0.
+(* rendering of a recorded [options] section: an option that is not recorded shows as 0 *)
 Definition value (l : alist) (k : key) : val :=
   match alookup k l with Some v => v | None => dflt k end.
+
+(* an option store: the value of every option (what coredata.dat holds) *)
+Definition store := key -> val.
+(* what lies OUTSIDE the build directory and may be edited between two commands:
+   the defaults the project declares (meson.options defaults, project(default_options:)) and the
+   option values written in the machine file *)
+Record world := { decl : store; mfile : alist }.
+(* a first configuration resolves every option: command line (this one + the recorded one) over the
+   machine file (if one is in force) over the declared default *)
+Definition resolve (w : world) (nf : bool) (cl : alist) : store :=
+  fun k => match alookup k cl with
+           | Some v => v
+           | None => if nf then match alookup k (mfile w) with Some v => v | None => decl w k end
+                     else decl w k
+           end.
+(* a re-configuration only applies the -D settings it is given (coredata.py set_from_configure_command):
+   neither the declared defaults nor the machine file are applied again *)
+Definition override (s : store) (D : alist) : store :=
+  fun k => match alookup k D with Some v => v | None => s k end.
 
 (* ---------------------------------------------------------------- files *)
 Inductive file :=
@@ -70,8 +91,8 @@ Definition file_eqb (a b : file) : bool :=
   end.
 
 Inductive content :=
-| CStore (l : alist)     (* a pickled CoreData: the option store is  defaults overridden by l *)
-| CRec (r : alist)       (* cmd_line.txt: the recorded [options] section *)
+| CStore (s : store)              (* a pickled CoreData: the option store *)
+| CRec (r : alist) (nf : bool)    (* cmd_line.txt: the recorded [options] section; [properties] names a machine file *)
 | CBlob.                 (* anything else that is complete *)
 
 Inductive fstate :=
@@ -117,8 +138,9 @@ Record env := {
   infos : list N;        (* the intro files `meson setup` writes, in order *)
   cinfos : list N;       (* the intro files `meson configure` rewrites *)
   chunks : nat;          (* extra partial write() calls per large file *)
-  atomic_cmd : bool;     (* cmd_line.txt via cmd_line.txt~ + os.replace (pending fix) *)
-  keep_cmd : bool        (* --wipe leaves cmd_line.txt in place (pending fix) *)
+  atomic_cmd : bool;     (* cmd_line.txt via cmd_line.txt~ + os.replace (fix fa5f5e3) *)
+  keep_cmd : bool;       (* --wipe leaves cmd_line.txt in place (fix 80cc784) *)
+  core_first : bool      (* hypothetical: `meson configure` writes coredata.dat BEFORE cmd_line.txt *)
 }.
 
 Inductive outcome := Done | MesonErr | PyErr.
@@ -128,7 +150,7 @@ Definition plan := (list op * outcome)%type.
 Definition partials (f : file) (n : nat) : list op := repeat (OWrite f None) n.
 
 (* coredata.py:467-481 *)
-Definition save_core (e : env) (l : alist) (st : fs) : list op :=
+Definition save_core (e : env) (l : store) (st : fs) : list op :=
   (match st Core with
    | Absent => []                                                    (* :473 os.path.exists *)
    | Whole c => [OOpen CorePrev; OWrite CorePrev (Some c)]           (* :475 shutil.copyfile *)
@@ -148,10 +170,10 @@ Definition save_build (e : env) : list op :=
   [OOpen BuildDat] ++ partials BuildDat (chunks e) ++ [OWrite BuildDat (Some CBlob)].
 
 (* cmdline.py write_cmd_line_file / update_cmd_line_file (the write itself) *)
-Definition write_cmd (e : env) (r : alist) : list op :=
+Definition write_cmd (e : env) (r : alist) (nf : bool) : list op :=
   if atomic_cmd e
-  then [OOpen CmdTmp] ++ partials CmdTmp (chunks e) ++ [OWrite CmdTmp (Some (CRec r)); ORename CmdTmp Cmd]
-  else [OOpen Cmd] ++ partials Cmd (chunks e) ++ [OWrite Cmd (Some (CRec r))].
+  then [OOpen CmdTmp] ++ partials CmdTmp (chunks e) ++ [OWrite CmdTmp (Some (CRec r nf)); ORename CmdTmp Cmd]
+  else [OOpen Cmd] ++ partials Cmd (chunks e) ++ [OWrite Cmd (Some (CRec r nf))].
 
 (* mintro.py: every intro file goes through tmp_dump.json + os.replace *)
 Definition intro (l : list N) : list op :=
@@ -163,65 +185,64 @@ Definition mkdirs (st : fs) : list op :=
   (if exists_ (st InfoDir) then [] else [OMkdir InfoDir]).
 
 (* cmdline.py:56-79 read_cmd_line_file *)
-Inductive cmdread := RAbsent | RRec (r : alist) | RBad.
+Inductive cmdread := RAbsent | RRec (r : alist) (nf : bool) | RBad.
 Definition read_cmd (x : fstate) : cmdread :=
   match x with
   | Absent => RAbsent                       (* :58 not os.path.isfile *)
-  | Whole (CRec r) => RRec r
+  | Whole (CRec r nf) => RRec r nf
   | _ => RBad                               (* :67 config['options'] -> KeyError / configparser error *)
   end.
 
 (* msetup.py:_generate after the interpreter ran: the order of the writes (:281-313) *)
-Definition body (e : env) (l r : alist) (st : fs) : list op :=
-  save_core e l st ++ gen_ninja e ++ save_build e ++ write_cmd e r ++ intro (infos e).
+Definition body (e : env) (l : store) (r : alist) (nf : bool) (st : fs) : list op :=
+  save_core e l st ++ gen_ninja e ++ save_build e ++ write_cmd e r nf ++ intro (infos e).
 
-(* `meson setup [--reconfigure]` once validate_dirs let it through.
-   D: the -D settings of this invocation. *)
-Definition setup_like (e : env) (D : alist) (st : fs) : plan :=
+(* `meson setup [--reconfigure]` once validate_dirs let it through, in world w.
+   D: the -D settings of this invocation; nf: --native-file given on this command line. *)
+Definition setup_like (e : env) (w : world) (D : alist) (nf : bool) (st : fs) : plan :=
   let pre := mkdirs st in
+  (* a first configuration of a directory that may hold a recorded command line *)
+  let first :=
+    match read_cmd (st Cmd) with                    (* environment.py:131-135 / :138-146 / msetup.py:233 *)
+    | RBad => (pre, PyErr)
+    | RAbsent => (pre ++ body e (resolve w nf D) D nf st, Done)
+    | RRec r nfr =>                                 (* cmdline.py:72-79: recorded machine files unless given now;
+                                                       msetup.py:296-302: what is in force stays recorded *)
+        (pre ++ body e (resolve w (nf || nfr) (r ++ D)) (r ++ D) (nf || nfr) st, Done)
+    end in
   match st Core with
-  | Whole (CStore l) =>
+  | Whole (CStore s) =>
       (* environment.py:128-130 loaded, not first_invocation; msetup.py:193-195 set_from_configure_command *)
       match read_cmd (st Cmd) with                  (* msetup.py:233 *)
       | RBad => (pre, PyErr)
-      | RAbsent => (pre ++ body e (l ++ D) D st, Done)         (* cmdline.py:104-108 written from scratch *)
-      | RRec r => (pre ++ body e (l ++ D) (r ++ D) st, Done)   (* cmdline.py:109-114 *)
+      | RAbsent => (pre ++ body e (override s D) D nf st, Done)           (* cmdline.py:104-108 written from scratch *)
+      | RRec r nfr => (pre ++ body e (override s D) (r ++ D) nfr st, Done)   (* cmdline.py:109-114: [properties] kept *)
       end
-  | Absent =>
-      (* environment.py:131-132 FileNotFoundError -> create_new_coredata, first_invocation *)
-      match read_cmd (st Cmd) with                  (* msetup.py:233: user_defined_options = file + command line *)
-      | RBad => (pre, PyErr)
-      | RAbsent => (pre ++ body e D D st, Done)
-      | RRec r => (pre ++ body e (r ++ D) (r ++ D) st, Done)   (* msetup.py:298-302: the recorded options stay recorded *)
-      end
+  | Absent => first                                 (* environment.py:131-135 FileNotFoundError *)
   | _ =>
       (* unreadable coredata: universal.py:2651-2663 -> MesonException; environment.py:138-147 *)
       match st Cmd with
       | Absent => (pre, MesonErr)                   (* :147 "Try regenerating using meson setup --wipe" *)
-      | x => match read_cmd x with                  (* :144 read into the options of this run *)
-             | RRec r => (pre ++ body e (r ++ D) (r ++ D) st, Done)
-             | _ => (pre, PyErr)
-             end
+      | _ => first
       end
   end.
 
-(* mconf.py:372-403 *)
-Definition dirty (l D : alist) : bool :=
-  existsb (fun kv => negb (value l (fst kv) =? snd kv)) D.
-Definition configure_plan (e : env) (D : alist) (st : fs) : plan :=
+(* mconf.py:372-403.  cc: --clearcache *)
+Definition dirty (s : store) (D : alist) : bool :=
+  existsb (fun kv => negb (s (fst kv) =? snd kv)) D.
+Definition configure_plan (e : env) (D : alist) (cc : bool) (st : fs) : plan :=
   match st PrivDir with
   | Absent => ([], MesonErr)                        (* mconf.py:119 neither build nor source dir *)
   | _ =>
     match st BuildDat, st Core with
-    | Whole _, Whole (CStore l) =>                  (* mconf.py:86 build.load *)
+    | Whole _, Whole (CStore s) =>                  (* mconf.py:86 build.load *)
+        let saving := save_core e (override s D) st ++ intro (cinfos e) in   (* mconf.py:393-399 *)
         match D with
-        | [] => ([], Done)                          (* print only *)
+        | [] => if cc then (saving, Done) else ([], Done)      (* mconf.py:366-371 print only unless --clearcache *)
         | _ =>
-          let r' := match read_cmd (st Cmd) with RRec r => r ++ D | _ => D end in   (* cmdline.py:103-114 *)
-          (write_cmd e r' ++
-           (if dirty l D                            (* mconf.py:385,390 *)
-            then save_core e (l ++ D) st ++ intro (cinfos e)
-            else []), Done)
+          let '(r', nf') := match read_cmd (st Cmd) with RRec r nfr => (r ++ D, nfr) | _ => (D, false) end in   (* cmdline.py:103-114 *)
+          let sv := if dirty s D || cc then saving else [] in   (* mconf.py:384-397 *)
+          (if core_first e then sv ++ write_cmd e r' nf' else write_cmd e r' nf' ++ sv, Done)
         end
     | _, _ => ([], MesonErr)                        (* build.py:3663-3669 / pickle_load *)
     end
@@ -240,14 +261,14 @@ Definition deletions (e : env) (order : list file) (st : fs) : list op :=
   flat_map (fun f => if kept e f then [] else if exists_ (st f) then [del_op f] else []) order.
 
 (* msetup.py:82-110 *)
-Definition wipe_plan (e : env) (D : alist) (order : list file) (st : fs) : plan :=
+Definition wipe_plan (e : env) (w : world) (D : alist) (nf : bool) (order : list file) (st : fs) : plan :=
   match st PrivDir, read_cmd (st Cmd) with
   | Absent, _ => ([], MesonErr)                     (* msetup.py:187-188 "not empty and does not contain a previous
                                                        build"; (--wipe of a completely empty directory, which behaves
                                                        like a first setup, is not modelled) *)
   | _, RBad => ([], PyErr)                          (* :92 read_cmd_line_file(self.build_dir, options) *)
   | _, rc =>
-    let r0 := match rc with RRec r => r | _ => [] end in
+    let '(r0, nfr) := match rc with RRec r n => (r, n) | _ => ([], false) end in
     let save := if keep_cmd e then []
                 else match st Cmd with
                      | Whole c => [OOpen CmdSave; OWrite CmdSave (Some c)]    (* historical: shutil.copy to a temp dir *)
@@ -260,63 +281,66 @@ Definition wipe_plan (e : env) (D : alist) (order : list file) (st : fs) : plan 
                         | _ => []
                         end in
     let pre := save ++ del ++ restore in
-    let '(ops2, out) := setup_like e (r0 ++ D) (run_ops pre st) in
+    let '(ops2, out) := setup_like e w (r0 ++ D) (nf || nfr) (run_ops pre st) in
     (pre ++ ops2, out)
   end.
 
 (* ---------------------------------------------------------------- commands *)
 Inductive cmd :=
-| Setup (D : alist)                          (* meson setup B S -D... *)
-| Reconf (D : alist)                         (* meson setup --reconfigure B S -D... *)
-| Wipe (D : alist) (order : list file)       (* meson setup --wipe B S -D...; order: the directory listing *)
-| Configure (D : alist).                     (* meson configure B -D... *)
+| Setup (D : alist) (nf : bool)                   (* meson setup B S -D... [--native-file F] *)
+| Reconf (D : alist)                              (* meson setup --reconfigure [--clearcache] B S -D... *)
+| Wipe (D : alist) (nf : bool) (order : list file) (* meson setup --wipe B S -D... [--native-file F]; order: the directory listing *)
+| Configure (D : alist) (cc : bool).              (* meson configure B -D... [--clearcache] *)
 
-Definition plan_of (e : env) (c : cmd) (st : fs) : plan :=
+Definition plan_of (e : env) (w : world) (c : cmd) (st : fs) : plan :=
   match c with
-  | Setup D =>
+  | Setup D nf =>
       (* msetup.py:175-186: coredata.dat exists and neither --reconfigure nor --wipe *)
       if exists_ (st Core)
-      then match D with [] => ([], Done) | _ => configure_plan e D st end
-      else setup_like e D st
-  | Reconf D => setup_like e D st
-  | Wipe D order => wipe_plan e D order st
-  | Configure D => configure_plan e D st
+      then match D with [] => ([], Done) | _ => configure_plan e D false st end
+      else setup_like e w D nf st
+  | Reconf D => setup_like e w D false st
+  | Wipe D nf order => wipe_plan e w D nf order st
+  | Configure D cc => configure_plan e D cc st
   end.
 
-Definition ops_of (e : env) (c : cmd) (st : fs) : list op := fst (plan_of e c st).
-Definition exec (e : env) (c : cmd) (st : fs) : fs := run_ops (ops_of e c st) st.
+Definition ops_of (e : env) (w : world) (c : cmd) (st : fs) : list op := fst (plan_of e w c st).
+Definition exec (e : env) (w : world) (c : cmd) (st : fs) : fs := run_ops (ops_of e w c st) st.
 (* the process is killed on entry to its (k+1)-th mutation *)
-Definition crash (e : env) (k : nat) (c : cmd) (st : fs) : fs := run_ops (firstn k (ops_of e c st)) st.
+Definition crash (e : env) (w : world) (k : nat) (c : cmd) (st : fs) : fs :=
+  run_ops (firstn k (ops_of e w c st)) st.
 
 (* ---------------------------------------------------------------- recovery *)
 (* "re-running `meson setup` (with --reconfigure when it was already configured)" *)
 Definition followup (st : fs) : cmd :=
-  if exists_ (st Core) then Reconf [] else Setup [].
+  if exists_ (st Core) then Reconf [] else Setup [] false.
 
-Definition stored (st : fs) : option alist :=
+Definition stored (st : fs) : option store :=
   match st Core with Whole (CStore l) => Some l | _ => None end.
 
-(* outcome of the follow-up, the state it leaves, the option store it reports *)
-Definition recover (e : env) (st : fs) : outcome * fs :=
+(* outcome of the follow-up (run in the same world), the state it leaves, the option store it reports *)
+Definition recover (e : env) (w : world) (st : fs) : outcome * fs :=
   let c := followup st in
-  (snd (plan_of e c st), exec e c st).
+  (snd (plan_of e w c st), exec e w c st).
 
-Definition reported (e : env) (st : fs) : option alist :=
-  match recover e st with
+Definition reported (e : env) (w : world) (st : fs) : option store :=
+  match recover e w st with
   | (Done, st') => stored st'
   | _ => None
   end.
 
 (* ---------------------------------------------------------------- histories *)
+(* every event carries the world it happens in: between two commands the project's declared defaults
+   and the machine file may have been edited arbitrarily *)
 Inductive event :=
-| Ran (c : cmd)                      (* a command that ran to its end *)
-| Killed (c : cmd) (k : nat)         (* a command killed on entry to its (k+1)-th mutation *)
-| Damage (f : file) (torn : bool).   (* NOT meson: external damage (truncate / delete a file); used only to
-                                        validate the recovery decisions on states meson itself never produces *)
+| Ran (w : world) (c : cmd)                (* a command that ran to its end *)
+| Killed (w : world) (c : cmd) (k : nat)   (* a command killed on entry to its (k+1)-th mutation *)
+| Damage (f : file) (torn : bool).         (* NOT meson: external damage (truncate / delete a file); used only to
+                                              validate the recovery decisions on states meson itself never produces *)
 Definition step (e : env) (st : fs) (ev : event) : fs :=
   match ev with
-  | Ran c => exec e c st
-  | Killed c k => crash e k c st
+  | Ran w c => exec e w c st
+  | Killed w c k => crash e w k c st
   | Damage f t => apply_op (if t then OOpen f else del_op f) st
   end.
 Definition meson_event (ev : event) : bool := match ev with Damage _ _ => false | _ => true end.
